@@ -1124,6 +1124,343 @@ end SpyneModel.Generated
        sum(len(v) for v in f['extra'].values()), lean_kw(lib['lxmlDefault']))
 
 
+
+# ======================================================================================= generators
+def lit(s):
+    return {'l': cps(s)}
+
+
+def ref(n):
+    return {'r': n}
+
+
+def O(tag, attrs=()):
+    return {'o': tag, 'a': [[k, list(v)] for k, v in attrs]}
+
+
+C = 'c'
+
+
+def T(s):
+    return {'t': cps(s)}
+
+
+def INT(*pieces):
+    return {'int': list(pieces)}
+
+
+def EXT(scheme, res):
+    return {'ext': [scheme, res]}
+
+
+def dtd(ents=(), sub=None, pe=()):
+    return {'sub': sub, 'ents': [[n, d] for n, d in ents], 'pe': [list(u) for u in pe]}
+
+
+def mkdoc(d, body, world):
+    doc = {'dtd': d, 'body': body, 'size': 0}
+    doc['size'] = len(render(doc, world))
+    return doc
+
+
+def chain_ents(depth, fan, base, first=0):
+    """e[first] = base literal, e[first+i] = fan references to e[first+i-1]; returns (ents, top)"""
+    ents = [(first, INT(lit(base)))]
+    for i in range(1, depth + 1):
+        ents.append((first + i, INT(*[ref(first + i - 1)] * fan)))
+    return ents, first + depth
+
+
+def chain_cost(depth, fan, base_len, fixed=20):
+    """libxml2's account for ONE reference to the top of the chain (mirrors the model)"""
+    size = base_len
+    for _ in range(depth):
+        size = 4 * fan + fan * (fixed + size)
+    return fixed + size
+
+
+def parse_corpus(ctx, lib, world):
+    """(label, abstract doc) for the `parse` op: every clause of the abstract front end"""
+    docs = []
+
+    def add(label, d, body):
+        docs.append((label, mkdoc(d, body, world)))
+
+    def wrap(inner, attrs=()):
+        return [O('r', attrs)] + inner + [C]
+    plain = wrap([T('x'), O('a', [('k', [lit('v')])]), T('y'), C, T('z')], [('k', [lit('v w')])])
+    add('plain', None, plain)
+    add('plain-doctype', dtd(), plain)
+    add('unicode', None, wrap([T('héllo 世界')], [('k', [lit('ü')])]))
+    e_int = [(1, INT(lit('IENT1')))]
+    add('int-text', dtd(e_int), wrap([T('x'), ref(1), T('y')]))
+    add('int-text-first', dtd(e_int), wrap([ref(1), T('y')]))
+    add('int-text-twice', dtd(e_int), wrap([ref(1), ref(1)]))
+    add('int-attr', dtd(e_int), wrap([T('t')], [('k', [lit('x'), ref(1), lit('y')])]))
+    add('int-elemcontent', dtd(e_int), wrap([O('a'), T('1'), C, ref(1), O('b'), T('2'), C]))
+    add('int-unref', dtd(e_int), plain)
+    add('int-redeclared', dtd([(1, INT(lit('FIRST'))), (1, INT(lit('SECOND')))]), wrap([ref(1)], [('k', [ref(1)])]))
+    nest = [(1, INT(lit('a'), ref(2), lit('b'))), (2, INT(lit('IENT2'))), (3, INT(ref(1), ref(1)))]
+    add('int-nested-text', dtd(nest), wrap([ref(3)]))
+    add('int-nested-attr', dtd(nest), wrap([], [('k', [ref(3)])]))
+    for sch in ('file', 'http', 'ftp'):
+        for res in (1, 100):
+            e = [(1, EXT(sch, res))]
+            add('ext-text:%s:%d' % (sch, res), dtd(e), wrap([T('x'), ref(1), T('y')]))
+            add('ext-attr:%s:%d' % (sch, res), dtd(e), wrap([T('t')], [('k', [ref(1)])]))
+        add('ext-unref:' + sch, dtd([(1, EXT(sch, 1))]), plain)
+        add('ext-twice:' + sch, dtd([(1, EXT(sch, 1)), (2, EXT(sch, 2))]), wrap([ref(1), T('-'), ref(2), T('-'), ref(1)]))
+        mixed = [(1, INT(lit('a'), ref(2), lit('b'))), (2, EXT(sch, 1))]
+        add('int-holds-ext-text:' + sch, dtd(mixed), wrap([ref(1)]))
+        add('int-holds-ext-attr:' + sch, dtd(mixed), wrap([], [('k', [ref(1)])]))
+        for res in (50, 100):
+            add('sub:%s:%d' % (sch, res), dtd(sub=[sch, res]), plain)
+            add('sub-ref-text:%s:%d' % (sch, res), dtd(sub=[sch, res]), wrap([T('x'), ref(900), T('y')]))
+            add('sub-ref-attr:%s:%d' % (sch, res), dtd(sub=[sch, res]), wrap([], [('k', [lit('x'), ref(900), lit('y')])]))
+            add('pe:%s:%d' % (sch, res), dtd(pe=[[sch, res]]), plain)
+            add('pe-ref-text:%s:%d' % (sch, res), dtd(pe=[[sch, res]]), wrap([T('x'), ref(900), T('y')]))
+            add('pe-ref-attr:%s:%d' % (sch, res), dtd(pe=[[sch, res]]), wrap([], [('k', [lit('x'), ref(900), lit('y')])]))
+        add('pe+sub:' + sch, dtd(e_int, sub=[sch, 51], pe=[[sch, 50]]), wrap([ref(900), ref(901), ref(1)], [('k', [ref(901), ref(900)])]))
+        add('pe-two:' + sch, dtd(pe=[[sch, 50], [sch, 51]]), wrap([ref(901)], [('k', [ref(900)])]))
+    add('internal-shadows-sub', dtd([(900, INT(lit('LOCAL')))], sub=['file', 50]), wrap([ref(900)], [('k', [ref(900)])]))
+    add('undeclared-text', None, wrap([T('x'), ref(7), T('y')]))
+    add('undeclared-text-dtd', dtd(e_int), wrap([ref(7)]))
+    add('undeclared-attr', dtd(e_int), wrap([], [('k', [ref(7)])]))
+    add('undeclared-nested-text', dtd([(1, INT(lit('a'), ref(7)))]), wrap([ref(1)]))
+    add('undeclared-nested-attr', dtd([(1, INT(lit('a'), ref(7)))]), wrap([], [('k', [ref(1)])]))
+    add('undeclared-nested-lenient-text', dtd([(1, INT(lit('a'), ref(7)))], sub=['file', 100]), wrap([ref(1)]))
+    add('undeclared-nested-lenient-attr', dtd([(1, INT(lit('a'), ref(7)))], pe=[['file', 100]]), wrap([], [('k', [ref(1)])]))
+    for nm, ents in (('loop-self', [(1, INT(lit('a'), ref(1)))]), ('loop-mutual', [(1, INT(ref(2))), (2, INT(lit('b'), ref(1)))])):
+        add(nm + '-text', dtd(ents), wrap([ref(1)]))
+        add(nm + '-attr', dtd(ents), wrap([], [('k', [ref(1)])]))
+        add(nm + '-unref', dtd(ents), plain)
+    md = lib['maxDepth']
+    for n in sorted({1, 2, md - 1, md, md + 1, md + 2, md + 50, 3 * md}):
+        if n >= 1:
+            add('depth:%d' % n, None, [O('a')] * n + [T('x')] + [C] * n)
+    add('depth-siblings', None, [O('r')] + ([O('a')] * (md - 1) + [C] * (md - 1)) * 2 + [C])
+    for lim in sorted({lib['maxEntDepth'], lib['maxEntDepthHuge']}):
+        for d in sorted({max(0, lim - 3), lim - 2, lim - 1, lim, lim + 5}):
+            ents, top = chain_ents(d, 1, 'CHAIN')
+            add('entdepth-attr:%d' % d, dtd(ents), wrap([], [('k', [ref(top)])]))
+            add('entdepth-text:%d' % d, dtd(ents), wrap([ref(top)]))
+    # expansion: far below and far above libxml2's budget (the accounting near the budget is not claimed)
+    for d, fan in ((1, 2), (2, 3), (3, 10), (4, 10), (6, 10), (9, 10), (5, 30), (12, 4)):
+        cost = chain_cost(d, fan, 10)
+        if 250000 < cost < 4000000:
+            continue
+        ents, top = chain_ents(d, fan, 'aaaaaaaaaa')
+        add('chain-attr:%dx%d' % (d, fan), dtd(ents), wrap([], [('k', [ref(top)])]))
+        add('chain-text:%dx%d' % (d, fan), dtd(ents), wrap([ref(top)]))
+    big = [(1, INT(lit('a' * 20000)))]
+    for n in (3, 400):
+        add('quadratic-attr:%d' % n, dtd(big), wrap([], [('k', [ref(1)] * n)]))
+        add('quadratic-text:%d' % n, dtd(big), wrap([ref(1)] * n))
+        add('quadratic-attrs:%d' % n, dtd(big), wrap([], [('k%d' % i, [ref(1)]) for i in range(n)]))
+    add('xinclude', None, wrap([O('{%s}include' % NS_XI, [('href', [lit('@URI:file:1@')]), ('parse', [lit('text')])]), C]))
+    add('xinclude-xml', None, wrap([O('{%s}include' % NS_XI, [('href', [lit('@URI:file:50@')])]), C]))
+    add('many-attrs', None, wrap([T('t')], [('k%d' % i, [lit('v%d' % i)]) for i in range(3000)]))
+    add('many-attrs-ent', dtd(e_int), wrap([T('t')], [('k%d' % i, [ref(1)]) for i in range(2000)]))
+    return docs
+
+
+def random_doc(rng, world):
+    """seeded random mixture of the same ingredients"""
+    ents = []
+    n_ent = rng.randrange(0, 5)
+    names = list(range(1, n_ent + 1))
+    for n in names:
+        k = rng.random()
+        if k < 0.55:
+            body = []
+            for _ in range(rng.randrange(0, 4)):
+                body.append(lit(rng.choice(['a', 'IENT%d' % n, 'xy z', 'é'])) if rng.random() < 0.6 or not names
+                            else ref(rng.choice(names + [7])))
+            ents.append((n, INT(*body)))
+        else:
+            ents.append((n, EXT(rng.choice(['file', 'http', 'ftp']), rng.choice([1, 2, 100]))))
+    sub = [rng.choice(['file', 'http', 'ftp']), rng.choice([50, 51, 100])] if rng.random() < 0.3 else None
+    pe = [[rng.choice(['file', 'http', 'ftp']), rng.choice([50, 51, 100])] for _ in range(rng.choice([0, 0, 0, 1, 2]))]
+    d = dtd(ents, sub, pe) if (ents or sub or pe or rng.random() < 0.5) else None
+    pool = names + [7, 900, 901] if d is not None else [7]
+
+    def pieces():
+        return [lit(rng.choice(['v', 'x y', ''])) if rng.random() < 0.5 else ref(rng.choice(pool)) for _ in range(rng.randrange(0, 3))]
+
+    def content(depth):
+        out = []
+        for _ in range(rng.randrange(0, 4)):
+            k = rng.random()
+            if k < 0.35:
+                out.append(T(rng.choice(['t', 'hello', ' ', 'a&b<c>'])))
+            elif k < 0.65:
+                out.append(ref(rng.choice(pool)))
+            elif depth < 3:
+                out.append(O(rng.choice(['a', 'b', '{urn:c17}q']), [('k%d' % i, pieces()) for i in range(rng.randrange(0, 3))]))
+                out.extend(content(depth + 1))
+                out.append(C)
+        return out
+    body = [O('r', [('k%d' % i, pieces()) for i in range(rng.randrange(0, 3))])] + content(1) + [C]
+    return mkdoc(d, body, world)
+
+
+CONFIGS = None
+
+
+def configs():
+    out = []
+    for res in ('off', 'internal', 'all'):
+        for ld in (False, True):
+            for nn in (True, False):
+                for ht in (False, True):
+                    kw = dict(DEFAULT_KW, resolve_entities=res, load_dtd=ld, no_network=nn, huge_tree=ht)
+                    out.append(kw)
+    out.append(dict(DEFAULT_KW, attribute_defaults=True))
+    out.append(dict(DEFAULT_KW, attribute_defaults=True, resolve_entities='all'))
+    return out
+
+
+# ---------------------------------------------------------------------------------------- requests
+TEXT_POS = ['s', 'name', 'note', 'lst0', 'lst1']
+CONTENT_POS = ['echo.pre', 'echo.post', 'item.pre', 'lst.pre']
+SOAP_CONTENT_POS = ['env.pre', 'body.post']
+ATTR_POS = ['tag', 'echo@x', 's@x', 'item@x', 'name@x', 'lst@x', 'lst0@x']
+SOAP_ATTR_POS = ['env@x', 'body@x']
+
+
+def request_doc(proto, d, world, text=None, attr=None, many_attrs=None):
+    """a valid echo request with `text` = (position, tokens) and/or `attr` = (position, pieces) filled in"""
+    tp, tt = text if text else (None, None)
+    ap, av = attr if attr else (None, None)
+
+    def at(elem, declared=()):
+        a = list(declared)
+        if ap == elem + '@x':
+            a.append(('x', av))
+        if many_attrs and many_attrs[0] == elem:
+            a += [('m%d' % i, [lit('v')]) for i in range(many_attrs[1])]
+        return a
+
+    def leaf(tag, pos, default):
+        return [O('{%s}%s' % (TNS, tag), at(pos))] + (tt if tp == pos else [T(default)]) + [C]
+
+    def slot(pos):
+        return tt if tp == pos else []
+    body = [O('{%s}echo' % TNS, at('echo'))] + slot('echo.pre') + leaf('s', 's', 'hello')
+    body += [O('{%s}item' % TNS, at('item', [('tag', av if ap == 'tag' else [lit('tg')])]))] + slot('item.pre')
+    body += leaf('name', 'name', 'nm') + leaf('note', 'note', 'nt') + [C]
+    body += [O('{%s}lst' % TNS, at('lst'))] + slot('lst.pre') + leaf('string', 'lst0', 'l0') + leaf('string', 'lst1', 'l1') + [C]
+    body += slot('echo.post') + [C]
+    if proto != 'xml':
+        ns = NS_S11 if proto == 'soap11' else NS_S12
+        body = [O('{%s}Envelope' % ns, at('env'))] + slot('env.pre') + [O('{%s}Body' % ns, at('body'))] + body + slot('body.post') + [C, C]
+    return mkdoc(d, body, world)
+
+
+def payloads(lib):
+    """(label, dtd, text tokens | None, attr pieces | None, expectation)
+    expectation: 'reject' = must be answered with Client.XMLSyntaxError; 'reject-attr' = only when placed in
+    an attribute; 'any' = accepted or rejected, but inert"""
+    P = []
+    P.append(('benign', None, [T('hello')], [lit('tg')], 'any'))
+    P.append(('internal', dtd([(1, INT(lit('IENT1')))]), [T('x'), ref(1), T('y')], [lit('x'), ref(1), lit('y')], 'any'))
+    for sch in ('file', 'http', 'ftp'):
+        P.append(('ext-general:' + sch, dtd([(1, EXT(sch, 1))]), [T('x'), ref(1), T('y')], [lit('x'), ref(1)], 'reject-attr'))
+        P.append(('ext-in-internal:' + sch, dtd([(1, INT(lit('a'), ref(2))), (2, EXT(sch, 2))]), [ref(1)], [ref(1)], 'reject-attr'))
+        P.append(('ext-param:' + sch, dtd(pe=[[sch, 50]]), [T('x'), ref(900)], [lit('x'), ref(900)], 'any'))
+        P.append(('ext-param-noref:' + sch, dtd(pe=[[sch, 50]]), [T('hello')], [lit('tg')], 'any'))
+        P.append(('ext-subset:' + sch, dtd(sub=[sch, 51]), [T('x'), ref(901)], [lit('x'), ref(901)], 'any'))
+        P.append(('ext-subset-noref:' + sch, dtd(sub=[sch, 51]), [T('hello')], [lit('tg')], 'any'))
+    P.append(('xinclude-text', None, [O('{%s}include' % NS_XI, [('href', [lit('@URI:file:1@')]), ('parse', [lit('text')])]), C], None, 'any'))
+    P.append(('xinclude-xml', None, [O('{%s}include' % NS_XI, [('href', [lit('@URI:file:50@')])]), C], None, 'any'))
+    for d, fan in ((2, 2), (3, 3), (3, 10)):
+        ents, top = chain_ents(d, fan, 'IENT0aaaaa')
+        P.append(('chain:%dx%d' % (d, fan), dtd(ents), [ref(top)], [ref(top)], 'any'))
+    for d, fan in ((6, 10), (9, 10), (12, 4), (5, 30)):
+        ents, top = chain_ents(d, fan, 'IENT0aaaaa')
+        P.append(('bomb:%dx%d' % (d, fan), dtd(ents), [ref(top)], [ref(top)], 'reject'))
+    P.append(('bomb:quadratic', dtd([(1, INT(lit('IENT1' + 'a' * 20000)))]), [ref(1)] * 400, [ref(1)] * 400, 'reject'))
+    P.append(('loop:self', dtd([(1, INT(lit('a'), ref(1)))]), [ref(1)], [ref(1)], 'reject'))
+    P.append(('loop:mutual', dtd([(1, INT(ref(2))), (2, INT(lit('b'), ref(1)))]), [ref(1)], [ref(1)], 'reject'))
+    ents, top = chain_ents(lib['maxEntDepthHuge'] + 5, 1, 'IENT0')
+    P.append(('bomb:entity-nesting', dtd(ents), [ref(top)], [ref(top)], 'reject'))
+    n = lib['maxDepth'] + 20
+    P.append(('bomb:nesting', None, [O('q')] * n + [C] * n, None, 'reject'))
+    P.append(('nesting-ok', None, [O('q')] * 60 + [C] * 60, None, 'any'))
+    P.append(('undeclared', None, [T('x'), ref(7)], [ref(7)], 'reject'))
+    return P
+
+
+def request_corpus(ctx, lib, world):
+    """(meta, query-without-kw) for the `handle` op and T3: every payload at every position"""
+    cases = []
+    pl = payloads(lib)
+    for proto in PROTOS:
+        tposs = TEXT_POS + CONTENT_POS + (SOAP_CONTENT_POS if proto != 'xml' else [])
+        aposs = ATTR_POS + (SOAP_ATTR_POS if proto != 'xml' else [])
+        for label, d, toks, pieces, expect in pl:
+            placements = []
+            if toks is not None:
+                placements += [('text', p) for p in tposs]
+            if pieces is not None and label != 'benign':
+                placements += [('attr', p) for p in aposs]
+            if label == 'benign':
+                placements = [('text', 's')]
+            for kind, pos in placements:
+                doc = request_doc(proto, d, world, text=(pos, toks) if kind == 'text' else None,
+                                  attr=(pos, pieces) if kind == 'attr' else None)
+                exp = 'reject' if expect == 'reject' or (expect == 'reject-attr' and kind == 'attr') else 'any'
+                for tr, mp in (('server', False), ('wsgi', False)) + ((('wsgi', True),) if proto != 'xml' else ()):
+                    cases.append(({'payload': label, 'pos': pos, 'kind': kind, 'expect': exp},
+                                  {'op': 'handle', 'proto': proto, 'tr': tr,
+                                   'req': {'doc': doc, 'multipart': mp, 'unicode_decl': False}}))
+        # huge attribute counts, an encoding declaration over a charset-announcing transport
+        for elem in ('echo', 's', 'item', 'lst0'):
+            doc = request_doc(proto, None, world, many_attrs=(elem, 4000))
+            for tr in ('server', 'wsgi'):
+                cases.append(({'payload': 'many-attrs', 'pos': elem, 'kind': 'attrs', 'expect': 'any'},
+                              {'op': 'handle', 'proto': proto, 'tr': tr, 'req': {'doc': doc, 'multipart': False, 'unicode_decl': False}}))
+        for label, d, toks, pieces, expect in pl:
+            if label in ('benign', 'internal', 'ext-general:file', 'bomb:6x10', 'bomb:nesting'):
+                doc = request_doc(proto, d, world, text=('s', toks))
+                for tr in ('server', 'wsgi'):
+                    cases.append(({'payload': label, 'pos': 's', 'kind': 'text+xmldecl', 'expect': 'reject' if expect == 'reject' else 'any'},
+                                  {'op': 'handle', 'proto': proto, 'tr': tr, 'req': {'doc': doc, 'multipart': False, 'unicode_decl': True}}))
+    return cases
+
+
+# ======================================================================================= comparison
+def env_for(world, lib):
+    e = world.env_json()
+    live = lambda s: s == 'file' or (lib['isNet'].get(s) and lib['netSupported'])
+    e['present'] = [u for u in e['present'] if live(u[0])]
+    return e
+
+
+def unplace(toks, world):
+    """replace this worker's concrete URIs in attribute values by the placeholders of the abstract document"""
+    if not isinstance(toks, list):
+        return toks
+    out = []
+    for t in toks:
+        if isinstance(t, dict) and 'o' in t:
+            a = []
+            for k, v in t['a']:
+                sv = uncps(v)
+                if world.dir in sv or '127.0.0.1' in sv:
+                    for s in ('file', 'http', 'ftp'):
+                        for r in TEXT_RES + DTD_RES + MISSING_RES:
+                            sv = sv.replace(world.uri((s, r)), '@URI:%s:%d@' % (s, r))
+                    v = cps(sv)
+                a.append([k, v])
+            t = {'o': t['o'], 'a': a}
+        out.append(t)
+    return out
+
+
+def run(ctx):
+    raise NotImplementedError
+
 if __name__ == '__main__':
     if len(sys.argv) >= 4 and sys.argv[1] == '--worker':
         worker_main(sys.argv[2], sys.argv[3])
